@@ -637,7 +637,7 @@ def ts5(ctx, pid):
                     probs.append("%s node: the key is changed in the recursion" % kind)
                 if kind == "EXT":
                     ck = ("call", NODES + "extract_key", (node,), ())
-                    if pl2 != ("bin", "+", plen, ("len", ck)):
+                    if pl2 != eng.mk_bin("+", plen, ("len", ck)):
                         probs.append("extension: proven length becomes `%s`, expected proven_len + len(extension path)" % tstr(pl2)[:50])
                     if nxt != ("call", HEX + ".get_node", (("self",), ("sub", node, C(1))), ()):
                         probs.append("extension: next node is `%s`, expected get_node(node[1])" % tstr(nxt)[:50])
@@ -648,7 +648,7 @@ def ts5(ctx, pid):
                         probs.append("extension: descent additionally requires `%s`; a key ending exactly at the extension's end must still descend into the branch below" % tstr(extra[0][0])[:60])
                     rows.setdefault(kind, set()).add("descend")
                 elif kind == "BRANCH":
-                    if pl2 != ("bin", "+", plen, C(1)):
+                    if pl2 != eng.mk_bin("+", plen, C(1)):
                         probs.append("branch: proven length becomes `%s`, expected proven_len + 1" % tstr(pl2)[:50])
                     if nxt != ("call", HEX + ".get_node", (("self",), ("sub", node, ("sub", unproven, C(0)))), ()):
                         probs.append("branch: next node is `%s`, expected get_node(node[unproven_key[0]])" % tstr(nxt)[:60])
@@ -792,8 +792,8 @@ def route1(ctx, pid):
             ctx.bad("dunder:HexaryTrie.%s" % dn, d.loc(), "%s is not `%s(%s)`" % (dn, mn, ", ".join(d.params[1:])), rule="SIB1")
     ex = c_.methods["exists"]
     rets = {st.ret for p, st in pq.states(ctx, ex) if p.exit[0] == "return"}
-    w = ("cmp", "!=", ("call", HEX + ".get", (("self",), ("p", ex.params[1])), ()), C(b""))
-    if rets == {w}:
+    w = ("!=", ("call", HEX + ".get", (("self",), ("p", ex.params[1])), ()), C(b""))
+    if rets and all(rel_norm(r, True) == w for r in rets):
         ctx.ok("exists:HexaryTrie.exists", ex.loc(), "exists(key) is get(key) != b''", rule="SIB1")
     else:
         ctx.bad("exists:HexaryTrie.exists", ex.loc(), "exists returns `%s`, expected get(key) != b''" % "; ".join(tstr(r)[:50] for r in rets), rule="SIB1")
